@@ -541,6 +541,29 @@ def rule_strides(ctx) -> None:
     ctx.chk.exhaustive_rules.add("C20.swap_bytes")
     ctx.chk.decide(cex is None, "C20.swap_bytes", fn.qual, "byte 2k and byte 2k+1 are exchanged for every k (even lengths 0..12)",
                    f"{cex[0]} bytes: {cex[1]} {cex[2]}" if cex else "", "b'abcd' -> b'badc'", A.loc(MISC, fn.node))
+    # reverse_bits: evaluated on every value of every width 1..6 (plus the default width at its corners): the bit mirror image,
+    # an involution; a value that does not fit the width is rejected by an SPSDK raise, not reversed into some other number
+    fn = ctx.func(MISC, "reverse_bits")
+    pv, pb = [a.arg for a in fn.node.args.args][:2]
+    cex = None
+    n = 0
+    cases = [(x, w) for w in range(1, 7) for x in range(-2, (1 << w) + 3)] + [(x, 32) for x in (0, 1, 0x12345678, 0xFFFFFFFF, 0x80000000, 1 << 32, (1 << 32) + 1, -1)]
+    for x, w in cases:
+        try:
+            out = ordereval.Evaluator({pv: x, pb: w}, ctx.fold_sym(fn), opaque_return=False).run(A.body_of(fn.node))
+        except ordereval.Unsupported as ex:
+            raise AnalysisError(f"C20.reverse_bits: left the fragment: {ex}")
+        n += 1
+        if 0 <= x < (1 << w):
+            good = out.kind == "return" and out.value == sum(((x >> i) & 1) << (w - 1 - i) for i in range(w))
+        else:
+            exc = out.node.exc if out.kind == "raise" and isinstance(out.node, ast.Raise) else None
+            good = exc is not None and norm(exc.func if isinstance(exc, ast.Call) else exc).startswith("SPSDK")
+        if not good and cex is None:
+            cex = (x, w, out.kind, out.value)
+    ctx.chk.exhaustive_rules.add("C20.reverse_bits")
+    ctx.chk.decide(cex is None, "C20.reverse_bits", fn.qual, f"mirror image of the low bits_cnt bits (an involution), values outside the width rejected ({n} models)",
+                   f"reverse_bits({cex[0]}, {cex[1]}): {cex[2]} {cex[3]!r}" if cex else "", "bit i <-> bit bits_cnt-1-i", A.loc(MISC, fn.node))
     # split_data: partition
     fn = ctx.func(MISC, "split_data")
     check_partition(ctx, "C20.split_data.partition", fn, "data", "size")
@@ -788,7 +811,7 @@ def run(ctx) -> None:
     ctx.rule(rule_change_endianness)
     ctx.chk.floor("C20.check_range", 1)
     ctx.chk.floor("C20.value_to_int.regex", 1)
-    ctx.chk.assumptions = ["Python int/struct/re semantics as documented", "not decided: get_bytes_cnt_of_int width table, reverse_bits, value-level conversions"]
+    ctx.chk.assumptions = ["Python int/struct/re semantics as documented", "not decided: value-level conversions outside the modelled domains"]
 
 
 MANIFEST = {
@@ -796,7 +819,7 @@ MANIFEST = {
              "exhaustively on order types (complete for comparison-only predicates), value_to_int's accepted language is proved equal to the documented grammar by automata "
              "product, swap16 is a proved bit permutation, padding helpers are proved append-only with the reference length on a residue-complete grid. Value-level "
              "behaviour (int() semantics, width tables) is not decided.",
-    "note": "Trusted: CPython ast/re parser/struct/int semantics; the tiny evaluators in sa/engines (ordereval, bitprov, regexlang). Not decided: get_bytes_cnt_of_int width choice, reverse_bits, "
+    "note": "Trusted: CPython ast/re parser/struct/int semantics; the tiny evaluators in sa/engines (ordereval, bitprov, regexlang). Not decided: "
             "enum uniqueness beyond the frozen wire-tag list.",
     "technique": "static analysis: AST abstract interpretation (order types, bit provenance), regex automata equivalence, structural rules, finite-model evaluation of byte helpers and BCD parsing (same-module functions stepped into), helper following",
 }
